@@ -71,6 +71,7 @@ type Contract struct {
 	CallSpecs       map[string]*Contract
 	Inline          bool
 	NoInline        bool
+	Base            *Contract // callspec refining a module function: that function's own contract (set at the call)
 	Trusted         bool // contract assumed, body not verified (externs are always trusted)
 	Replay          string
 	Panics          []*Clause
